@@ -695,6 +695,14 @@ func (e *engine) resolvePremiseFacts(premises []ast.Term, sol unionfind.UnionFin
 		if err != nil {
 			continue
 		}
+		if !ground.IsGround() {
+			// Wildcards are not part of the substitution: any stored fact that
+			// matches the remaining pattern is the premise that was used.
+			e.store.GetFacts(ground, func(fact ast.Atom) error {
+				ground = fact
+				return errBreak
+			})
+		}
 		out[i] = ground
 	}
 	return out
